@@ -151,6 +151,19 @@ func search(a map[string]string, pool service.TransactionPool) {
 	g := gen{hx.NewRng(hx.SeedFromEnv() ^ 0x5ea7c4)}
 	n := hx.ArgInt(a, "n", 6)
 	distinct := 0
+	kp := newKeyPool(g.r.Fork())
+	// the address the code derives for a key must be the reference address (Keccak of X32‖Y32)
+	for _, k := range kp.all() {
+		s.evals++
+		pk := pubBytes(&k.PublicKey)
+		got := hx.Guard(func() string { return common.BytesToPublicKey(pk).GetAddress().GetHexString() })
+		if got != refAddress(&k.PublicKey) {
+			c := cfgs[0]
+			c.apply()
+			tx := g.honestNative(k, common.ChainId(0))
+			s.report("address-not-reference", "PublicKey.GetAddress() = "+got+" but the address of this key (last 20 bytes of Keccak-256(X32||Y32)) is "+refAddress(&k.PublicKey)+"; key "+hx.Hex(pk), c, 0, tx)
+		}
+	}
 	for i := 0; i < n; i++ {
 		c := cfgs[i%3]
 		height := c.p001 + uint64(g.r.Intn(3))
@@ -159,6 +172,9 @@ func search(a map[string]string, pool service.TransactionPool) {
 		}
 		c.apply()
 		k := g.key()
+		if i%2 == 0 && len(kp.short) > 0 {
+			k = kp.short[(i/2)%len(kp.short)]
+		}
 		cid := common.ChainId(height)
 		other := c.orig
 		if other == cid {
@@ -167,7 +183,36 @@ func search(a map[string]string, pool service.TransactionPool) {
 		if other == cid {
 			other = cid + "1"
 		}
-		// ---- native
+		// ---- native: every boundary key and every padding class must be accepted when honest
+		for _, bk := range kp.all() {
+			ht := g.honestNative(bk, cid)
+			distinct++
+			if !s.accept(c, height, ht) {
+				s.report("honest-rejected:native", "honestly signed native transaction (Source = Keccak(X32||Y32)[12:], key with a short coordinate or small scalar) rejected", c, height, ht)
+			}
+			if wa := g.wrongAddressTx(bk, cid); wa != nil {
+				distinct++
+				if s.accept(c, height, wa) {
+					s.report("native-wrong-address-accepted", "transaction declaring the address of the unpadded coordinate digest as Source is accepted", c, height, wa)
+				}
+			}
+		}
+		for _, class := range []string{"hash0", "short-r", "short-s"} {
+			if ct := g.honestNativeClass(k, cid, class); ct != nil {
+				distinct++
+				if !s.accept(c, height, ct) {
+					s.report("honest-rejected:native", "honestly signed native transaction of padding class "+class+" rejected", c, height, ct)
+				}
+				for _, v := range signFamily(ct.Sign) {
+					m := cloneTx(ct)
+					m.Sign = v.sg
+					distinct++
+					if s.accept(c, height, m) && !sameSignature(v.sg, ct.Sign) {
+						s.report("native-sign-malleated-accepted", "a signature algebraically related to the honest one ("+v.name+", padding class "+class+") is accepted", c, height, m)
+					}
+				}
+			}
+		}
 		tx := g.honestNative(k, cid)
 		if !s.accept(c, height, tx) {
 			s.report("honest-rejected:native", "honestly signed native transaction rejected", c, height, tx)
